@@ -42,6 +42,9 @@ CHECKS = {
  "C15": ("bounded symbolic execution of the patch loader, builder methods, asdicts and Op.apply on symbolic values and documents",
          "For operation lists of 1-3 of the eight operations: the document form, the builder chain and JSONPatch(p.asdicts()) print the same dicts (given op names) and have the same effect; apply leaves the patch and the caller's list unchanged; a second application gives an equal, structurally independent result, including container values modified by a later operation; addne/addap vs add on 12 targets.",
          "pointer strings concrete (index from a pool of five spellings); lists up to 3 operations"),
+ "C20": ("bounded symbolic execution of match.pointer() -> JSONPatch.test/replace/remove -> apply on documents with look-alike member names, vs editing a deep copy by the match's parts",
+         "For every match of a query catalogue on documents whose member names are digits-only, signed look-alikes, '~', '/', empty or non-ASCII (symbolic leaves and array lengths): test with the matched value passes, replace/remove through the match's pointer (object and text form) edit exactly that location and nothing else.",
+         "member names concrete (fixed set and a 16-name pool)"),
 }
 NA = {
  "C18": "process-level I/O (argparse FileType, stdin/stdout, exit status, stderr text): CrossHair's audit wall blocks file access, file contents pass through C json, and what remains is a finite option table whose exploration would be enumeration of concrete runs - no role for a solver",
